@@ -67,4 +67,10 @@ void   vp_raw_free(void *p);
 extern size_t vp_last_malloc_sizes[16];
 extern unsigned vp_last_malloc_n;
 
+/* frames transmitted during the current / previous op (for `relay`) */
+struct vp_txrec { int iface; uint8_t *data; size_t len; };
+extern struct vp_txrec vp_prev_tx[], vp_cur_tx[];
+extern unsigned vp_prev_tx_n, vp_cur_tx_n;
+void vp_rotate_tx(void);
+
 #endif
